@@ -15,6 +15,8 @@ grep -E "^test result|FAILED" SEEDED/without_change.log | head
 git apply SEEDED/patch.diff
 echo "== /verif check with the change applied to /repo"
 git -C /repo apply "$WT/SEEDED/patch.diff" || { echo "patch does not apply to /repo"; exit 2; }
+EVBAK=$(mktemp -d); cp -a /verif/evidence/. "$EVBAK"/
 (cd /verif && ZSIM_WORKERS=${ZSIM_WORKERS:-8} ./check "$P" quick 2>&1 | grep -E "^violation|^VIOLATION|^C[0-9]+ quick|HARNESS" | cut -c1-400)
 git -C /repo checkout -- .
+cp -a "$EVBAK"/. /verif/evidence/; rm -rf "$EVBAK"
 git -C /repo status --short | head -3
